@@ -45,12 +45,16 @@ class VLoop(asyncio.SelectorEventLoop):
         return self.readers.pop(fd, None) is not None
 
 
-def run(coro_fn, *args):
+def run(coro_fn, *args, spin_limit_s=30):
     """run `coro_fn(loop, *args)` to completion in a fresh virtual-time loop"""
+    import common
     loop = VLoop()
     asyncio.set_event_loop(loop)
     try:
-        return loop.run_until_complete(coro_fn(loop, *args))
+        # a scenario costs milliseconds of real time (the clock is virtual); the limit only fires when the code
+        # under test spins without awaiting, and then `common.Spin` propagates to the caller of run()
+        with common.watchdog(spin_limit_s):
+            return loop.run_until_complete(coro_fn(loop, *args))
     finally:
         try:
             pending = [t for t in asyncio.all_tasks(loop) if not t.done()]
